@@ -34,9 +34,12 @@ TIERS = {
     # per_class: cases per (flow, stage, tamper) class; group: cases per world
     # pairs_hot: pairs of alterations that the transcription accepts or that cancel each other out;
     # pairs_rest: a seeded sample of all other pairs
-    "quick": dict(per_class=1, pairs_hot=40, pairs_rest=40, group=8, mutants=["validate"], tv_chunks=6, replay_timeout=150),
+    # wall: the tier's budget in seconds; reserve: what trace validation and reporting need at the end.  The harness
+    # is given the time that is left (it stops handing out new worlds when the time is up), so the wall time does not
+    # depend on the machine's load; the number of exchanges actually executed is measured and reported.
+    "quick": dict(per_class=1, pairs_hot=40, pairs_rest=40, group=8, mutants=["validate"], tv_chunks=6, wall=165, reserve=35),
     "thorough": dict(per_class=1000, pairs_hot=100000, pairs_rest=700, group=8, mutants=["validate", "check_fees", "restore_fee", "restore_amount"],
-                     tv_chunks=10, replay_timeout=1350),
+                     tv_chunks=10, wall=1440, reserve=150),
 }
 
 
@@ -178,6 +181,7 @@ def run(tier, replay_path, t0):
     rnd = random.Random(seed())
     T = TIERS[tier]
     build_s = build_harness(["replay_tamper"])
+    log("  harness build %.0fs" % build_s)
     mc = None
     mutants = {}
     mut_thread = None
@@ -247,31 +251,49 @@ def run(tier, replay_path, t0):
         log("  stimulus: %d single alterations (%d classes), %d of %d hot pairs, %d of %d other pairs" % (
             len(stim) - len(hots[:T["pairs_hot"]]) - len(rest[:T["pairs_rest"]]), len(by), len(hots[:T["pairs_hot"]]), len(hots),
             len(rest[:T["pairs_rest"]]), len(rest)))
-        rnd.shuffle(stim)
+        # single alterations first (seeded order), then the pairs: a time budget that runs out cuts pairs first
+        nsingle = len(stim) - len(hots[:T["pairs_hot"]]) - len(rest[:T["pairs_rest"]])
+        head, tail = stim[:nsingle], stim[nsingle:]
+        rnd.shuffle(head)
+        rnd.shuffle(tail)
+        stim = head + tail
         for i, c in enumerate(stim):
             c["id"] = i
     if not stim:
         raise ToolError("no stimulus")
     groups = [stim[i:i + T["group"]] for i in range(0, len(stim), T["group"])]
     log("  executing %d exchanges (%d classes) on real wallets in %d worlds" % (len(stim), len(set(case_class(c) for c in stim)), len(groups)))
+    t_exec0 = time.time()
     # wallets and chains live in a directory of this check alone (other checks share harness/target/tmp)
     os.environ.setdefault("VERIF_TMP", workdir("tmp_C02"))
-    nd = replay("replay_tamper", {"groups": groups}, "C02", timeout=T["replay_timeout"])
+    budget = max(20, int(T["wall"] - T["reserve"] - (time.time() - t0)))
+    nd = replay("replay_tamper", {"groups": groups}, "C02", extra_args=["--budget-ms", str(budget * 1000)], timeout=budget + 120)
     events = read_ndjson(nd)
     if len(events) != len(stim):
         raise ToolError("the harness returned %d lines for %d cases" % (len(events), len(stim)))
     # cases that could not be set up (skip:*, not a class the slate cannot carry) are run once more in fresh worlds
-    again = [e["c"] for e in events if e.get("run", "").startswith("skip:") and not e["run"].startswith("skip:tamper:")]
-    if again:
+    again = [e["c"] for e in events if e.get("run", "").startswith("skip:") and not e["run"].startswith("skip:tamper:") and e["run"] != "skip:budget"]
+    left = T["wall"] - T["reserve"] - (time.time() - t0)
+    if again and left > 20:
         log("  %d cases could not be set up (%s); running them once more" % (len(again), sorted(set(e["run"] for e in events if e["c"] in again))[:4]))
-        nd2 = replay("replay_tamper", {"groups": [again[i:i + 4] for i in range(0, len(again), 4)]}, "C02_retry", timeout=max(150, T["replay_timeout"] // 3))
+        nd2 = replay("replay_tamper", {"groups": [again[i:i + 4] for i in range(0, len(again), 4)]}, "C02_retry",
+                     extra_args=["--budget-ms", str(int(left * 1000))], timeout=int(left) + 120)
         redo = {e["c"]["id"]: e for e in read_ndjson(nd2)}
         events = [redo.get(e["c"]["id"], e) for e in events]
         with open(nd, "w") as f:
             for e in events:
                 f.write(json.dumps(e) + "\n")
+    t_exec = time.time() - t_exec0
+    t_tv0 = time.time()
     viols, nonconfs, skips, m_ok = validate(nd, "C02", T["tv_chunks"])
+    log("  exchanges executed in %.0fs, trace validated by TLC in %.0fs" % (t_exec, time.time() - t_tv0))
     by_id = {e["c"]["id"]: e for e in events}
+    unrun = [s for s in skips if s["why"] == "skip:budget"]
+    skips = [s for s in skips if s["why"] != "skip:budget"]
+    if unrun:
+        log("  time budget: %d of %d exchanges were not started" % (len(unrun), len(stim)))
+    if len(unrun) > len(stim) // 2:
+        raise ToolError("the time budget covered less than half of the stimulus (%d of %d not started)" % (len(unrun), len(stim)))
     hard_skips = [s for s in skips if not s["why"].startswith("skip:tamper:")]
     if hard_skips:
         log("NONCONFORMANCE: %d cases could not be set up by the harness; first: %s" % (len(hard_skips), json.dumps(hard_skips[0])))
@@ -349,6 +371,7 @@ def run(tier, replay_path, t0):
         "cases_executed": len(ran),
         "classes_executed": len(set(case_class(e["c"]) for e in ran)),
         "cases_skipped": len(skips),
+        "cases_not_started_time_budget": len(unrun),
         "outcome_kinds": kinds,
         "vacuity_witnesses": wit,
         "spec_mutants": mutants,
